@@ -429,28 +429,27 @@ func (a *oauth2IntrospectionAuthenticator) getCacheTTL(introspectResp *oauth2.In
 	// we cache by default using the settings in the introspection response (if available)
 	// or if ttl has been configured. Latter overwrites the settings in the introspection response
 	// if it is shorter than the ttl in the introspection response
-	introspectionResponseTTL := x.IfThenElseExec(introspectResp.Expiry != nil,
-		func() time.Duration {
-			expiresIn := introspectResp.Expiry.Time().Unix() - time.Now().Unix() - timeLeeway
-
-			return x.IfThenElse(expiresIn > 0, time.Duration(expiresIn)*time.Second, 0)
-		},
-		func() time.Duration { return 0 })
-
 	configuredTTL := x.IfThenElseExec(a.ttl != nil,
 		func() time.Duration { return *a.ttl },
 		func() time.Duration { return 0 })
 
-	switch {
-	case configuredTTL == 0 && introspectionResponseTTL == 0:
-		return 0
-	case configuredTTL == 0 && introspectionResponseTTL != 0:
-		return introspectionResponseTTL
-	case configuredTTL != 0 && introspectionResponseTTL == 0:
+	if introspectResp.Expiry == nil {
 		return configuredTTL
-	default:
-		return min(configuredTTL, introspectionResponseTTL)
 	}
+
+	expiresIn := introspectResp.Expiry.Time().Unix() - time.Now().Unix() - timeLeeway
+	if expiresIn <= 0 {
+		// the token expires within the leeway (or is already expired, but still accepted due to
+		// the validity leeway). There is nothing left which could be cached
+		return 0
+	}
+
+	introspectionResponseTTL := time.Duration(expiresIn) * time.Second
+	if configuredTTL == 0 {
+		return introspectionResponseTTL
+	}
+
+	return min(configuredTTL, introspectionResponseTTL)
 }
 
 func (a *oauth2IntrospectionAuthenticator) calculateCacheKey(ep *endpoint.Endpoint, templatedURL, token string) string {
